@@ -51,6 +51,16 @@ MScripts(n) ==
      <<"NextValid", "NextInvalid", "NextValid", "NextInvalid", "Reset", "NextInvalid", "NextValid", "Next", "NextValid">>,
      <<"Next", "NextValid", "Rev", "NextInvalid", "NextValid", "Fwd", "NextValid", "NextValidity">>}
 
+(* rank-4 tensors (too many elements for every mask): a family of patterned masks *)
+BigShapes == {<<2, 3, 2, 2>>, <<2, 2, 2, 3>>, <<3, 2, 1, 2>>}
+BigMasks(n) == {[i \in 1..n |-> 0], [i \in 1..n |-> 1], [i \in 1..n |-> i % 2], [i \in 1..n |-> IF i % 3 = 0 THEN 1 ELSE 0],
+                [i \in 1..n |-> IF i = 5 THEN 1 ELSE 0], [i \in 1..n |-> IF i <= n \div 2 THEN 1 ELSE 0],
+                [i \in 1..n |-> IF (i \div 2) % 2 = 0 THEN 1 ELSE 0]}
+NextBig ==
+    /\ steps = <<>> /\ Mode = "inspect"
+    /\ \E s \in BigShapes : \E m \in BigMasks(Prod(s)) :
+         DoAllX(<<Op("NewMasked", 0, <<s, m>>), Op("MaskInspect", 1, <<>>)>>)
+
 Next ==
     /\ steps = <<>>
     /\ \E s \in ShapeSet : Prod(s) <= MaxMask /\ \E m \in Masks(Prod(s)) :
@@ -79,6 +89,8 @@ Next ==
                            \* (softness is set on the view itself: whether a view inherits it from its source is not stated)
                            \/ DoAllX(<<new, Op("Slice", 1, sl), Op("Soften", 2, <<1>>), Op("MaskPred", 2, <<"le", 3, 0>>)>>)
                            \/ DoAllX(<<new, Op("Slice", 1, sl), Op("ResetMask", 2, <<>>)>>)
+              [] Mode = "unary" ->      \* a masked operand of a safe unary operation / Apply: the operand is an operand
+                   DoAllX(<<new, Op("Unary", 1, <<"OP", "safe", 0, 1, 2>>)>>)
               [] Mode = "arg" ->        \* masked elements do not take part in arg-reductions
                    Len(s) >= 1 /\ \E f \in {"max", "min"}, ax \in (-1)..(Len(s) - 1) : DoAllX(<<new, Op("Arg", 1, <<f, ax>>)>>)
               [] Mode = "ops" ->
@@ -86,7 +98,7 @@ Next ==
                      \/ DoAllX(<<new, Op("NewMasked", 0, <<s, m2>>), Op("Arith", 1, <<"OP", "TT", 2, "safe", 0>>)>>)
                      \/ DoAllX(<<new, Op("Arith", 1, <<"OP", "TS", 1, "safe", 0>>)>>)
 
-Spec == Init /\ [][Next]_vars
+Spec == Init /\ [][Next \/ NextBig]_vars
 CaseRec == [fam |-> "mask", steps |-> steps, live |-> live, heap |-> heap, allocs |-> allocs]
 Emit == IF steps # <<>> THEN PrintT(<<"CASE", ToJson(CaseRec)>>) ELSE TRUE
 
